@@ -10,6 +10,7 @@ SYMS = {
     "d": ([46], 46), "p": ([43], 43), "1": ([49], 49), "t": ([9], 9), "m": ([13], 13),
     "w": ([115], 115), "j": ([107], 107), "f": ([0xC5, 0xBF], 0x17F), "g": ([0xE2, 0x84, 0xAA], 0x212A), "W": ([83], 83),
     "v": ([0xE2, 0x85, 0xB7], 0x2177), "V": ([0xE2, 0x85, 0xA7], 0x2167),
+    "G": ([0xCE, 0xB1], 0x3B1), "J": ([0xF0, 0x9F, 0x98, 0x80], 0x1F600), "T": ([0xC3], 0xFFFD), "O": ([0xCE, 0xA9], 0x3A9),
 }
 
 
@@ -20,6 +21,17 @@ def fold_family():
             {"id": "F1", "rules": {"Root": [P(0, "(?i)as"), P(1, "(?i)k"), P(2, "(?s).")]}},
             {"id": "F2", "rules": {"Root": [P(0, "(?i)sa+"), P(1, "[^a]")]}},
             {"id": "F3", "rules": {"Root": [P(0, "(?i)\u2177"), P(1, "(?i)a\u2177"), P(2, "(?s).")]}}], list("awjfgWvV")
+
+
+def unicode_family():
+    """large Unicode classes (\\p{Greek}, \\p{Cyrillic}; tens of ranges) met by runes above their highest range, classes without single-byte
+    members met by lone invalid / truncated bytes; alphabet: a A alpha Omega emoji e-acute 0xFF 0xC3"""
+    P = lambda i, pat: named("T%d" % i, pat)
+    return [{"id": "U0", "rules": {"Root": [P(0, "\\p{Greek}+"), P(1, "(?s).")]}},
+            {"id": "U1", "rules": {"Root": [P(0, "[\\p{Greek}A-Z]+"), P(1, "\\p{Cyrillic}"), P(2, "(?s).")]}},
+            {"id": "U2", "rules": {"Root": [P(0, "[^\\x00-\\x7F]+"), P(1, "a")]}},
+            {"id": "U3", "rules": {"Root": [P(0, "[\\x{80}-\\x{10FFFF}]"), P(1, "\\P{Greek}"), P(2, "(?s).")]}},
+            {"id": "U4", "rules": {"Root": [P(0, "[\\p{Greek}\\p{Cyrillic}]+a?"), P(1, "[^a]")]}}], list("aAGOJexT")
 
 
 def alpha(names):
